@@ -259,6 +259,71 @@ pub fn run(cfg: &Cfg) -> Report {
             rep.sample(10, || json!({"kind": "streams-under-flood", "scenario": scn.describe().chars().take(900).collect::<String>()}));
         }
     }
+    // (4) a busy stream next to a caller: one client's stream has tens or hundreds of items ready at once; in the same
+    // instant another client's call arrives. "While the stream is open other clients are still served": the call
+    // must be handled before more than a handful of those items have gone out (bounded progress; the bound is three
+    // rounds over the connections plus a constant, so that only "the stream is drained first" is flagged).
+    let n_busy = if miri { cfg.n(1, 4) } else { cfg.n(3000, 120_000) };
+    for k in 0..n_busy {
+        let nconn = rng.range(2, 4);
+        let streamer = rng.below(nconn);
+        let mut scn = Scenario::default();
+        for i in 0..nconn {
+            let calls = if i == streamer {
+                vec![CallSpec { kind: Kind::Sub, seq: 1, oneway: false, more: true, payload: String::new() }]
+            } else {
+                (0..rng.range(1, 3)).map(|j| CallSpec { kind: if rng.chance(1, 5) { Kind::Fail } else { Kind::Echo }, seq: 1 + j as u32, oneway: rng.chance(1, 6), more: false, payload: payload(&mut rng).chars().take(20).collect() }).collect()
+            };
+            scn.conns.push(ConnScn { calls, ..Default::default() });
+        }
+        let nitems = if miri { 12 } else { rng.range(40, 300) };
+        let mut steps: Vec<Step> = Vec::new();
+        let mut order: Vec<usize> = (0..nconn).collect();
+        rng.shuffle(&mut order);
+        for i in &order {
+            steps.push(Step { ev: Ev::Accept(*i), mode: Mode::Quiesce });
+        }
+        steps.push(Step { ev: Ev::Deliver(streamer), mode: Mode::Quiesce });
+        let burst_step = steps.len();
+        let mut burst: Vec<Ev> = (0..nitems).map(|n| Ev::Item { client: streamer as u32, seq: 1, n: n as u32, continues: Some(true) }).collect();
+        let mut callers: Vec<usize> = (0..nconn).filter(|i| *i != streamer).collect();
+        rng.shuffle(&mut callers);
+        let ncallers = rng.range(1, callers.len());
+        for c in &callers[..ncallers] {
+            burst.insert(rng.below(burst.len() + 1), Ev::Deliver(*c));
+        }
+        steps.push(Step { ev: Ev::Multi(burst), mode: Mode::Quiesce });
+        if rng.chance(1, 2) {
+            steps.push(Step { ev: Ev::Close { client: streamer as u32, seq: 1 }, mode: Mode::Quiesce });
+        }
+        for c in &callers[ncallers..] {
+            steps.push(Step { ev: Ev::Deliver(*c), mode: Mode::Quiesce });
+        }
+        scn.steps = steps;
+        scn.wake = k % 2 == 1;
+        rep.count("busy_stream_next_to_a_caller_cases");
+        check(&scn, &mut rep);
+        // the bounded-progress verdict, from the service log: frames the streaming client had been sent when the
+        // first call of each caller of the burst was handled, minus those it had before the burst
+        if let Ok(out) = run_world_caught(scn.world()) {
+            let before = out.checkpoints.iter().filter(|cp| cp.step <= burst_step).last().map(|cp| out.written[streamer][..cp.written[streamer]].iter().filter(|b| **b == 0).count()).unwrap_or(0);
+            let bound = 3 * (nconn + 1) + 6;
+            for c in &callers[..ncallers] {
+                if let Some(l) = out.log.iter().find(|l| l.client == *c as u32 && l.seq == 1) {
+                    let sent = l.frames_written.get(streamer).copied().unwrap_or(0) as usize;
+                    rep.evaluations += 1;
+                    rep.max("max_items_of_a_busy_stream_sent_before_a_waiting_call_was_handled", sent.saturating_sub(before) as u64);
+                    if sent.saturating_sub(before) > bound {
+                        rep.violation(
+                            "C10/other-clients-not-served-while-a-busy-stream-is-open",
+                            format!("conn{c}'s call arrived together with {nitems} items of conn{streamer}'s stream; when it was handled {} of them had already been sent (bound {bound}); scenario: {}", sent - before, scn.describe().chars().take(500).collect::<String>()),
+                            scn.to_json("c10"),
+                        );
+                    }
+                }
+            }
+        }
+    }
     rep.add("distinct_event_orders", orders.len() as u64);
     rep
 }
